@@ -59,12 +59,20 @@ def gen_script(rng, ncols, nsess, bufs, allow_bad=False):
             fault = "none"
         if fault == "atFlush" and bufs[c] != 1_000_000:
             fault = "atBody"          # with a small buffer the injected write failure would fire inside the body
+        torn = fault == "atFlush" and rng.chance(1, 2)
         puts = []
         if kind == "writing":
             for _ in range(rng.range(0, 3)):
                 used += 1
                 puts.append((f"k{used}", bytes([rng.below(256)]) * rng.range(0, 4)))
         cut = rng.range(0, max(len(puts), 1))
+        if torn:
+            # the write fails after some bytes of the record are in the file: a torn tail is left behind.  The record is
+            # long and zero-filled, so that whatever of it survives behind a shorter later record parses as blocks.
+            fault = "atFlushTorn"
+            used += 1
+            puts = [(f"k{used}", b"\x00" * rng.choice([0, 3, 40, 150]))] + puts
+            cut = rng.below(1 << 20)          # raw; run_script derives the number of bytes from the record's length
         if kind == "writing" and fault == "none" and retry.get(c):
             # the key whose write failed in an earlier session of this collection is put again: it must be accepted
             puts = [(retry.pop(c), b"again")] + puts
@@ -94,7 +102,7 @@ def model_lines(bufs, script):
             ps = puts[:cut] if fault in ("atBody", "atBodyBase") else puts
             for k, v in ps:
                 ops.append(f"cput {c} {hx(k.encode())} {hx(v)} {len(k)}")
-        ops.append(f"endfault {c}" if fault == "atFlush" else f"end {c}")
+        ops.append(f"endfault {c}" if fault == "atFlush" else (f"endfaulttorn {c} {cut}" if fault == "atFlushTorn" else f"end {c}"))
         ops.append("probe")
     return ";".join(ops)
 
@@ -147,7 +155,19 @@ def run_script(ctx, probe, path: Path, bufs, script, tag, alias: Path = None, pr
                               f"after a refused writing session on a read-only handle the library changed", rtag)
             continue
         reads = tuple(sorted(expected.keys())[:1]) if (kind == "reading" or si % 2 == 1) else ()
-        out = sesslib.run_session(col, kind, fault, puts, cut=cut, in_body=in_body, reads=reads)
+        tear = 0
+        if fault == "atFlushTorn":
+            q0 = pending[c] + puts
+            blen = 5 + len(q0[0][0].encode()) + len(q0[0][1])
+            # a third of the time fewer bytes than a block header; else anywhere inside the record
+            if cut < 0:
+                tear = min(-cut, blen - 1)                       # directed scripts name the byte count themselves
+            else:
+                tear = 1 + (cut // 3) % 4 if cut % 3 == 0 else 1 + (cut // 3) % (blen - 1)
+            script[si] = (c, kind, fault, puts, tear)            # the model is told the exact number of bytes
+            cut = tear
+            ctx.count("torn_flush_bytes<5" if tear < 5 else "torn_flush_bytes>=5")
+        out = sesslib.run_session(col, kind, fault, puts, cut=cut, in_body=in_body, reads=reads, tear=tear)
         for rk, rv in out.get("reads", {}).items():
             if fault not in ("atBegin", "atUpdate") and rv != expected.get(rk):
                 ctx.violation("C04:read-in-writing-session-differs",
@@ -200,7 +220,7 @@ def run_script(ctx, probe, path: Path, bufs, script, tag, alias: Path = None, pr
                     queue = []
                 if fault == "badValue":
                     pass
-                elif fault == "atFlush" and queue:
+                elif fault in ("atFlush", "atFlushTorn") and queue:
                     # the first write of the exit flush raises: that pair is popped and lost, the rest stays queued in the
                     # collection object (exact bookkeeping is the model's job; the oracle demands only that nothing already
                     # written disappears and nothing outside the queue appears)
@@ -242,8 +262,8 @@ def run_script(ctx, probe, path: Path, bufs, script, tag, alias: Path = None, pr
                 ctx.violation("C04:unexpected-record-in-library", f"after session {si} the library holds {extra[:3]} nobody wrote",
                               {"bufs": bufs, "script": tag, "at": step})
             # what a failed flush really left behind becomes the reference from here on
-            expected = dict(lib) if fault == "atFlush" else expected
-            if fault in ("atFlush", "badValue"):
+            expected = dict(lib) if fault in ("atFlush", "atFlushTorn") else expected
+            if fault in ("atFlush", "atFlushTorn", "badValue"):
                 pending[c] = [(k, v) for k, v in col._backend._write_queue]
         if fault == "atBegin":
             continue
@@ -269,6 +289,7 @@ from molli.storage import Collection, UkvCollectionBackend
 path, logf, pid, nsess, seed = sys.argv[1], sys.argv[2], int(sys.argv[3]), int(sys.argv[4]), int(sys.argv[5])
 rnd = random.Random(seed * 1000 + pid)
 col = Collection(path, UkvCollectionBackend, readonly=False, bufsize=rnd.choice([-1, 0, 64, 10**6]))
+tmo = None if pid % 2 == 0 else 60      # half of the processes wait for the lock without a timeout (the default)
 log = open(logf, "w")
 def ev(*a):
     log.write(json.dumps([time.monotonic_ns(), pid, *a]) + "\n"); log.flush()
@@ -281,7 +302,7 @@ for s in range(nsess):
     fail = rnd.random() < 0.25
     try:
         if write:
-            with col.writing(timeout=60):
+            with col.writing(timeout=tmo):
                 ev(sid, "begin", "w", sorted(col.keys()))
                 keys = []
                 for j in range(rnd.randint(1, 3)):
@@ -295,7 +316,7 @@ for s in range(nsess):
                 ev(sid, "endbody", "w", keys)
             ev(sid, "done", "w", keys)
         else:
-            with col.reading(timeout=60):
+            with col.reading(timeout=tmo):
                 ks = sorted(col.keys())
                 ev(sid, "begin", "r", ks)
                 time.sleep(rnd.random() * 0.004)
@@ -601,7 +622,7 @@ def check_history(ctx, path, events, hung, errs, tag):
                     ctx.violation("C04:reader-saw-incomplete-record", f"reading session {sid}: values complete={data[0]}, listing stable={data[1]}", tag)
                     return
         elif ev == "timeout":
-            ctx.violation("C04:session-timed-out", f"session {sid} could not get the lock within 60 s", tag)
+            ctx.violation("C04:session-timed-out", f"session {sid} raised TimeoutError although it waits for the lock for 60 s or without limit", tag)
             return
     col = Collection(path, UkvCollectionBackend, readonly=True)
     with col.reading(timeout=10):
@@ -680,6 +701,32 @@ def run(ctx):
                        alias=work / "alias" / ".." / "alias" / f"directed{dn}.ukv")
             ctx.case(json.dumps([bufs, tag]), True)
             ctx.count("directed_scripts")
+        # ---- directed scripts: the flush at session exit fails after n bytes of a record (n inside the block header, the
+        # key, the value); then a reader, a writer with a SHORTER record on another handle, and the same handle again
+        tn = 0
+        for vlen in (0, 150):
+            for n in (1, 2, 3, 4, 5, 6, 8, 40, 100, 5 + 2 + vlen - 1):
+                if n >= 5 + 2 + vlen:
+                    continue
+                for bufB in (64, 1_000_000):
+                    sc = [(0, "writing", "none", [(f"a{tn}", b"x")], 0),
+                          (0, "writing", "atFlushTorn", [(f"t{tn}", b"\x00" * vlen), (f"u{tn}", b"1")], -n),
+                          (1, "reading", "none", [], 0),
+                          (1, "writing", "none", [(f"s{tn}", b"")], 1),
+                          (0, "reading", "none", [], 0),
+                          (0, "writing", "none", [(f"t{tn}", b"again")], 1),
+                          (1, "reading", "none", [], 0)]
+                    bufs = [1_000_000, bufB]
+                    tag = [[c, k, f, [[a, hx(b)] for a, b in p_], cut] for c, k, f, p_, cut in sc]
+                    toks = run_script(ctx, probe, work / "real" / f"torn{tn}.ukv", bufs, sc, tag,
+                                      alias=work / "alias" / ".." / "alias" / f"torn{tn}.ukv")
+                    lines.append(model_lines(bufs, sc))
+                    impls.append((toks, bufs, tag))
+                    ctx.case(json.dumps([bufs, tag]), True)
+                    ctx.count("directed_torn_flush_scripts")
+                    tn += 1
+                    if ctx.quick() and tn >= 24:
+                        break
         nscripts = 40 if ctx.quick() else 600
         for n in range(nscripts):
             ncols = ctx.rng.range(1, 3)
